@@ -388,6 +388,12 @@ func (w *dnsWorld) reloadReuse(rs *dnsRuleSet) {
 	}
 	w.rules = rs
 	w.gen++
+	if w.mode == dnsModeC10 {
+		// the reload also changes the routing section's domain rules: entries created from
+		// now on carry the new generation's bitmap, existing entries keep theirs
+		w.bitmapGen++
+		w.s.Notef("domain rules generation %d", w.bitmapGen)
+	}
 	w.plane.dnsRouting = routing
 	w.plane.dnsController = nf
 	w.ctl = nf
